@@ -82,6 +82,12 @@ CLAIMS = {
             "17 (thorough 20) scenarios of 2-4 goroutines x 1-2 operations colliding on the same keystores (key issuance, address generation, signing, lookups, listing, remark, export, lock/unlock/IsLocked, create/delete): every complete schedule with scheduling points at operation starts and at BeginTx/Commit/BeginReadTx of the wallet store is executed on the real wallet; each call/return history is checked for linearizability against the sequential reference by exhaustive search over the orders consistent with real time; the running and the reopened wallet must equal the witness's final state; returned keys pairwise distinct (C06 concurrent part); panics and calls that never return are violations. Each scenario body also runs 60x free under the race detector: a report with a frame in the wallet package is a violation (this pass samples schedules; it is the oracle for data races only).",
             "finer interleavings than transaction boundaries are unobservable for methods holding the manager mutex; the race detector reports what it observes",
             "DESIGN.md §C14"),
+    "C11": ("exploration",
+            "bounded-exhaustive enumeration of plot-directory contents at start-up and of action histories with full directory listings, on the real keeper over real massdb.v1 files",
+            "seqx",
+            "(a) Start-up: every conflict-free combination of <=3 (quick) / <=4 (thorough) of 31 directory-content entries (valid registered/ready, renamed ordinal/key/bit length, foreign key, 7 wrong-header variants, truncations, legacy names, case variants, unrelated files) x 2 directories under 3 proof_dir orders: exact index set, once each, first directory wins, ready iff recorded progress complete, proofs only from valid files (real proof records embedded), no file deleted/truncated/modified except the content-preserving legacy rename. (b) Histories: every sequence of 3/4 actions of {plot,mine,stop,remove,delete} x {space,bulk} + gate release over 5 configurations with the plotter parked at gates (plotting really held), listing (names, sizes, hashes) compared after every action: remove/delete refused while plotting/mining and change nothing, delete removes exactly that space's files, nothing else removes anything.",
+            "massdb Plot() is stubbed in (b) (no real plotting); case-variant names, a B file without its A and leading-zero ordinals are diagnostics; two directories, bit lengths 24/26",
+            "DESIGN.md §C11"),
     "C12": ("fault_enumeration",
             "exhaustive fault injection: every storage event of every (reached state, mutating operation) pair x {failed write/commit, crash before, crash after} on the real wallet over a fault-injecting db.DB wrapper",
             "seqx",
